@@ -19,7 +19,9 @@ variable {K : Type} [Field K] (E : K → K)
 
 /-- Round trip: the forward transform of the synthesised time function is the partial-fraction expression
     it was synthesised from — for all partial-fraction data (any number of poles, any orders, polynomial part
-    of any degree, any delay), at every non-pole point.  (`0 < o`: `as_QRPO` numbers orders from 1.) -/
+    of any degree, any delay), at every non-pole point.  (`0 < o`: `as_QRPO` numbers orders from 1.)
+    This is the PLAIN synthesis `ilt pf`; the synthesis the driver executes (source-text polynomial loop + conjugate pairing)
+    has the same statement as `ilt_executed_laplace` / `ilt_executed_inverts` in Props/C10b.lean. -/
 theorem ilt_laplace (pf : PF K) (s : K) (ho : ∀ x ∈ pf.R, 0 < x.2.2) :
     L E (ilt pf) s = evalPF E pf s := ilt_laplace' E pf s ho
 
@@ -76,11 +78,18 @@ theorem residue_sub_simple_partial (b0 b1 p q s : K) (hpq : p ≠ q) (h1 : s - p
   have : q - p ≠ 0 := sub_ne_zero.mpr (Ne.symm hpq)
   field_simp; ring
 
-/-- `make`: not causal and a non-empty unilateral part ⇒ the result carries the `t ≥ 0` condition -/
+/-- MODEL REMARK (bookkeeping, not a transform fact).  `make`: not causal and a non-empty unilateral part ⇒ the result
+    carries the `t ≥ 0` condition.  `makeModel` is three lines; what makes this more than its own definition is the tie:
+    its two guard conditions are READ FROM THE SOURCE of `UnilateralInverseTransformer.make` on every run (tx_ilt:
+    `Gen.makeGuardOnlyIfNotCausal`, `Gen.makeGuardOnlyIfUnilateral`), and the harness compares the model's `guarded` flag with
+    the presence of `Piecewise((…, t >= 0))` in Lcapy's result for every generated case and option set; the spec oracle
+    (guard / causal flags of the REAL result) does not use the model. -/
 theorem make_guard [DecidableEq K] (parts : List (ExpPoly K × ExpPoly K))
     (h : ∃ x ∈ parts, x.2 ≠ []) : (makeModel false parts).guarded = true := make_guard' parts h
 
-/-- with `causal=True` nothing is left in the unilateral part and no condition is attached -/
+/-- MODEL REMARK.  With `causal=True` nothing is left in the unilateral part and no condition is attached (needs the generated
+    flag `Gen.makeGuardOnlyIfNotCausal = true`: the `if not kwargs.get('causal', False)` of the source).  That the causal output
+    really is a causal signal, hence zero before `t = 0`, is `ilt_causal_output` (Props/C10b.lean). -/
 theorem make_causal [DecidableEq K] (hasDelay : Bool) (c u : ExpPoly K) (parts : List (ExpPoly K × ExpPoly K)) :
     (termModel true hasDelay c u).2 = [] ∧ (makeModel true parts).guarded = false :=
   ⟨termModel_causal hasDelay c u, make_causal' parts⟩
@@ -146,7 +155,8 @@ theorem ilt_key_defaults_agree : ∀ od ∈ Gen.readOptionDefaults, od ∈ Gen.k
 section ordered
 variable {K : Type} [Field K] [LinearOrder K] [IsStrictOrderedRing K] (E : K → K)
 
-/-- a causal result (all delays ≥ 0, every regular term multiplied by its step) is zero before `t = 0` -/
+/-- a causal result (all delays ≥ 0, every regular term multiplied by its step) is zero before `t = 0`; that the model's
+    `causal=True` output satisfies `Causal` is proved as `ilt_causal_output` / `damped_sin_causal_output` (Props/C10b.lean) -/
 theorem causal_zero_before (f : ExpPoly K) (hc : Causal f) (t : K) (ht : t < 0) : evalAt E f t = 0 := by
   induction f with
   | nil => rfl
